@@ -8,6 +8,7 @@ import Driver.Pool
 import Driver.Scheduler
 import Driver.EGraph
 import Driver.ProofCk
+import Driver.Containers
 open Driver
 
 structure St where
@@ -30,6 +31,7 @@ def dispatch (s : St) (line : String) : St × String :=
   | "sch" :: rest => (s, schStep rest)
   | "eg" :: rest => let (p, o) := egStep s.eg rest; ({ s with eg := p }, o)
   | "pk" :: rest => (s, pkStep rest)
+  | "cn" :: rest => (s, cnStep rest)
   | _ => (s, "bad-op")
 
 partial def loop (h : IO.FS.Stream) (out : IO.FS.Stream) (s : St) : IO Unit := do
